@@ -43,15 +43,17 @@ PROBES = [
     "interposed-op-ran",
     "handles>=2",
     "batch-committed",
+    "operation-ended-by-read-error",
+    "batched-operation-ended-by-read-error",
 ]
-FAULTS = ["write-fail-applied", "write-fail-not-applied", "interposed-op", "crash-reopen", "batch-abort", "batch-abort-base"]
+FAULTS = ["write-fail-applied", "write-fail-not-applied", "interposed-op", "crash-reopen", "batch-abort", "batch-abort-base", "read-fail"]
 COMPONENTS = {
     "real": ["HexaryTrie (prune=False) set/delete/get", "squash_changes + ScratchDB.batch_commit(do_deletes=False)", "at_root", "HexaryTrie(db, old_root)"],
     "stub": ["SimDB mapping with append-only / content-addressed monitors, failing writes, access interposition", "writer / reader / operator actors, one per handle"],
     "model": ["dict per handle; registry root -> contents; RefMPT only to classify the root held after a failed call"],
 }
 ASSUMPTIONS = [
-    "storage faults are failed writes (applied or not); stored bytes are never torn or altered by the store itself",
+    "storage faults are failed writes (applied or not) and I/O errors on reads that the client catches; stored bytes are never torn or altered by the store itself",
     "C04 does not require a failed call to roll back: the root a handle holds afterwards must be one of {before, after} and readable",
 ]
 
@@ -153,6 +155,12 @@ class World(HWorld):
 
     def mutation_raised(self, h, cmd, exc):
         if cmd.get("on") == "batch":
+            if "read-fail" in self.fired:
+                # an I/O error on a read ended an operation of the batch; the client caught
+                # it inside the block: the batch goes on without that operation
+                if h.btrie.root_hash != self.before[0]:
+                    self.viol("root-after-failure-unknown", f"a batched {cmd['op']} was ended by a read error ({exc!r}) yet the batch's root moved")
+                self.st.probe("batched-operation-ended-by-read-error")
             return "exc:" + type(exc).__name__
         k = unhx(cmd["k"])
         after = dict(h.model)
@@ -162,6 +170,8 @@ class World(HWorld):
             after.pop(k, None)
         h.model = dict(self._classify_failed(h, h.trie, self.before[0], h.model, after, cmd["op"]))
         h.ver += 1
+        if "read-fail" in self.fired:
+            self.st.probe("operation-ended-by-read-error")
         self._probe_fail(cmd, "op")
         self.audit_root(h.trie.root_hash, h.model, full=True)
         return "exc:" + type(exc).__name__
@@ -378,6 +388,22 @@ def generate(rng):
             if rng.random() < 0.3:
                 nested = {"op": "del", "h": other, "k": hx(k), "via": "m", "on": "live"}
             cmds[j] = dict(cmds[j], ipose={"at": rng.randint(1, 8), "cmd": nested})
+    # I/O errors on reads (not KeyError: the entry may well be there) inside direct and
+    # batched operations; the client catches them and carries on
+    if rng.random() < 0.3:
+        seen_in_batch = {}
+        for c in cmds:
+            hh = c.get("h", 0)
+            if c["op"] == "bopen":
+                seen_in_batch[hh] = 0
+            if c["op"] in ("set", "del", "sete") and "ipose" not in c:
+                # inside a batch the operations after the first are the interesting ones:
+                # they walk nodes the batch itself made before they reach the store
+                later = c.get("on") == "batch" and seen_in_batch.get(hh, 0) > 0
+                if c.get("on") == "batch":
+                    seen_in_batch[hh] = seen_in_batch.get(hh, 0) + 1
+                if rng.random() < (0.4 if later else 0.12):
+                    c["fr"] = [rng.choice([1, 1, 1, 2, 2, 3, 4, 6]), rng.choice("EOB")]
     return {"prop": ID, "cfg": {"prune": False, "handles": nh, "cache": cache, "store": rng.choice(["min", "min", "dict"]), "probe": [hx(k) for k in probes]}, "cmds": cmds}
 
 
